@@ -35,9 +35,9 @@ INTERFACE (stable; the C16 builder may rely on it)
                                names of `fields` in that order that exist as data fields and are not in `exclude`
                                (unknown names, metadata names and repeated names are ignored), else all data fields not in
                                `exclude`; values, types and all four metadata slots unchanged.
-                               NOTE: for a name repeated in `fields` the real descriptor lists that field twice
-                               (`get_field_tuples()`), its slots only once; the model lists it once - compare with
-                               `dedup_fields(observation)`.
+                               NOTE: a name repeated in `fields` is projected once, at its first mention.  Before fix
+                               163c045 the real descriptor listed such a field twice (its slots once); the C15 check
+                               compares the library's descriptor exactly - `dedup_fields` is only a diagnostic helper.
     dedup_fields(o)         -> the observation with repeated names in the descriptor field list removed (first kept)
     merge_fields(field_lists, replace=False) -> [(type, name), ...]     merge_record_descriptors
     extend(obs_list, replace=False, name=None) -> record observation      extend_record(first, rest, replace, name)
